@@ -3,7 +3,7 @@
    [dur_decode_pinned], [hex2rgb_pinned] mirror the pinned code).  Strings are lists of code points. *)
 From Coq Require Import List ZArith NArith Reals. Import ListNotations.
 From Flocq Require Import Core.
-Require Import Codec Codecproof CodecDurproof CodecDateproof CodecColorproof CodecFloat Gen_Css.
+Require Import Codec Codecproof CodecDurproof CodecDateproof CodecColorproof CodecFloat Gen_Css Typed CodecUnit CodecUnitproof.
 
 (* ---------------------------------------------------------------- Duration *)
 (* decode inverts encode on every whole-second duration, either sign, no bound *)
@@ -126,6 +126,21 @@ Print Assumptions hex_decode_complete.
 Theorem hex_decode_sound_refuted : hex2rgb_pinned w_arabic_zeros = Some (0, 0, 0)%N /\ color_lexical w_arabic_zeros = false.
 Proof. exact hex2rgb_pinned_unsound. Qed.
 Print Assumptions hex_decode_sound_refuted.
+
+(* ---------------------------------------------------------------- lengths (Unit) *)
+(* repaired Unit (fixes/F70): str then parse is the identity on every length without exponent, any sign, any unit of letters *)
+Theorem unit_roundtrip : forall (d : dec) (u : str), (dexp d <= 0)%Z -> u <> [] -> forallb is_letter u = true ->
+  unit_parse (unit_str d u) = Some (d, u).
+Proof. exact unit_roundtrip_lemma. Qed.
+Print Assumptions unit_roundtrip.
+Example unit_example : unit_str (mkdec true 5 (-1)) s_cm = [45;48;46;53;99;109]%N /\ unit_parse [45;48;46;53;99;109]%N = Some (mkdec true 5 (-1), s_cm).
+Proof. split; reflexivity. Qed.
+(* pinned Unit (F70): "-0.5cm" reads as 0.5 with unit "-cm"; Decimal("1E+5") cm prints as "1E+5cm", which reads as 15 with unit "E+cm" *)
+Theorem unit_roundtrip_refuted :
+  unit_parse_pinned [45;48;46;53;99;109]%N = Some (mkdec false 5 (-1), [45;99;109]%N) /\
+  unit_parse_pinned (unit_str_pinned (mkdec false 1 5) s_cm) = Some (mkdec false 15 0, [69;43;99;109]%N).
+Proof. exact unit_pinned_unsound. Qed.
+Print Assumptions unit_roundtrip_refuted.
 
 (* ---------------------------------------------------------------- the property at full strength *)
 Definition C18_full : Prop :=
